@@ -479,6 +479,34 @@ pub fn classify(src: &str, v: &Verdict) -> String {
     let kind: &'static str = kind;
     let Ok(Ok(ast)) = catch(|| parse(src)) else { return "unexplained".into() };
     let ast2 = formatted.as_ref().and_then(|o| catch(|| parse(o)).ok().and_then(|r| r.ok()));
+    if kind == "format-panics" {
+        if let Verdict::Fail { detail, .. } = v {
+            if detail.contains("container terms are rendered by term_doc") {
+                return "spawn-of-container".into();
+            }
+        }
+    }
+    if kind == "program-changed" || kind == "output-unparseable" {
+        let dbg = format!("{ast:?}");
+        if ["int", "bin", "ref"].iter().any(|n| dbg.contains(&format!("Identifier {{ name: \"{n}\", arguments: [] }}"))) {
+            return "type-parameter-named-like-primitive".into();
+        }
+    }
+    if kind != "comments-changed" && kind != "format-panics" {
+        let (several, multi) = super::astutil::hole_shapes(&ast);
+        if multi {
+            return "multiline-literal-inside-hole".into();
+        }
+        if several {
+            return "hole-with-several-steps".into();
+        }
+        let dbg = format!("{ast:?}");
+        if kind != "not-idempotent"
+            && (dbg.contains("match_pattern: Some(Type(SelfDefault") || dbg.contains("match_pattern: Some(Type(Identifier"))
+        {
+            return "type-pattern-binding-reads-as-alias".into();
+        }
+    }
     if kind == "comments-changed" {
         if let (Some(o), Some(a2)) = (formatted, &ast2) {
             return comment_cause(src, &ast, o, a2);
